@@ -17,10 +17,10 @@ PLANS = {
     "C04": dict(engine=INO, mc=["MC_WatchSet"],
                 quick=[("wsexh", 196, "k=2"), ("wsexh", 900, "k=3"), ("wsrand", 200, ""), ("repoint", 60, "")],
                 thorough=[("wsexh", 196, "k=2"), ("wsexh", 2744, "k=3"), ("wsexh", 38416, "k=4"), ("wsrand", 6000, ""), ("repoint", 600, "")]),
-    "C05": dict(engine=INO, mc=["MC_Sched"],
+    "C05": dict(engine=INO, mc=["MC_Sched"], also_lin=True,
                 quick=[("lag", 300, ""), ("close", 100, ""), ("stall", 40, ""), ("ovfstall", 2, "")],
                 thorough=[("lag", 5000, ""), ("close", 2000, ""), ("stall", 600, ""), ("ovfstall", 12, "")]),
-    "C06": dict(engine=INO, mc=["MC_Sched"],
+    "C06": dict(engine=INO, mc=["MC_Sched"], also_lin=True,
                 quick=[("close", 300, ""), ("lag", 100, ""), ("ovfstall", 1, "mode=close")],
                 thorough=[("close", 5000, ""), ("lag", 1500, ""), ("ovfstall", 12, "")]),
     "C08": dict(engine=INO, mc=["MC_Events"],
